@@ -81,7 +81,18 @@ class Suite:
                 exps.append(self.impl(c))
             except Exception as e:  # the implementation driver itself must not fail
                 exps.append(["IMPL-DRIVER-EXCEPTION", repr(e)])
-        gots = core.run_model(self.model, [self.encode(c) for c in cases])
+        try:
+            gots = core.run_model(self.model, [self.encode(c) for c in cases])
+        except core.BuildError as e:
+            # the model of this suite does not build against the tree under check (a generator failed closed, a model
+            # file no longer compiles): that is a proof/model violation of its own, reported once -- and the search for a
+            # concrete failing input goes on with the implementation oracle alone
+            gots = [None] * len(cases)
+            if not getattr(self, "_model_missing_reported", False):
+                self._model_missing_reported = True
+                ctx.violation("proof", "%s: the executable model %s is not available for the tree under check (%s)"
+                              % (self.name, self.model, str(e)[-200:]), None,
+                              signature={"suite": self.name, "kind": "model-unavailable"}, no_input=True)
         st = self.stats
         reported = 0
         for c, exp, got in zip(cases, exps, gots):
@@ -113,7 +124,7 @@ class Suite:
                     what, sig = _safe(self.oracle, small) or bad
                     if not ctx.violation("impl-violation", "%s: %s" % (self.name, what), _short(small, 4000), signature=sig):
                         _save_corpus(ctx, self.name, small)
-            if exp != got:
+            if got is not None and exp != got:
                 st["disagreements"] += 1
                 if reported < 3:
                     reported += 1
